@@ -480,6 +480,35 @@ theorem in_range_narrow_kind_witness :
   refine ⟨rfl, rfl, ?_⟩
   simp [BoundsFit, Kind.rank, inRange, Kind.isSigned, Kind.bits]
 
+/-- the statement without the `BoundsFit` hypothesis (every integer kind of the left operand, any bounds): what the
+    property's sentence says literally.  `in_range_eq_two_sided` above is its `_partial` form: operands whose
+    evaluation leaves the state unchanged (the right-hand side evaluates `x` twice), an integer left operand, and
+    bounds that fit the operand's kind. -/
+def in_range_eq_two_sided_goal : Prop :=
+  ∀ (c : SCfg) (ctx : Ctx) (mi mr ma mg ml : Meta) (x lo hi : Node) (s : SState) (k : Kind) (v lo' hi' : Int),
+    eval c ctx x s = (.ok (.int k v), s) → eval c ctx lo s = (.ok (.int .int lo'), s) →
+    eval c ctx hi s = (.ok (.int .int hi'), s) → inRange .int lo' → inRange .int hi' → k.isInt = true →
+    eval c ctx (.binary mi "in" x (.binary mr ".." lo hi)) s =
+      chargeRange c.budget (rangeCounted c lo' hi') (rangeElems lo' hi').length
+        (eval c ctx (.binary ma "and" (.binary mg ">=" x lo) (.binary ml "<=" x hi)) s)
+
+/-- … and it is false (known finding `c18:in-range-narrow-kind`): `BoundsFit` cannot be dropped -/
+theorem in_range_eq_two_sided_goal_false : ¬ in_range_eq_two_sided_goal := by
+  intro h
+  have := h c0 [] {} {} {} {} {} xI8 (.int {} 127) (.int {} 129) {} .int8 (-128) 127 129 rfl rfl rfl
+    (by decide) (by decide) rfl
+  have h1 := congrArg Prod.fst this
+  rw [in_range_narrow_kind_witness.1] at h1
+  have e : eval c0 [] (.binary {} "and" (.binary {} ">=" xI8 (.int {} 127)) (.binary {} "<=" xI8 (.int {} 129))) {} =
+      (.ok (.bool false), {}) := rfl
+  rw [e] at h1
+  have hc : (chargeRange c0.budget (rangeCounted c0 127 129) (rangeElems 127 129).length
+      ((.ok (.bool false), {}) : R Val × SState)).1 = .ok (.bool false) := rfl
+  rw [hc] at h1
+  injection h1 with h1
+  injection h1 with h1
+  cases h1
+
 /-- `M` is a map: `count(M, {true})` is 1 but `len(filter(M, {true}))` is a type error (a map cannot be
     indexed by position) — the identity is about arrays, as the property says -/
 theorem count_len_filter_map_witness :
